@@ -13,7 +13,9 @@ ID_PATTERNS = [b"nullPointer", b"null*", b"*Pointer", b"**Pointer", b"*", b"**",
 FILES = [b"a.c", b"b.c", b"x.h", b""]
 # finding / analysed file names (PathMatch::match is C31's pm_model in the model): plain, with
 # directories, with . and .. components, absolute
-PATHS = [b"a.c", b"b.c", b"x.h", b"src/a.c", b"src/sub/b.c", b"src/../a.c", b"./b.c", b"inc/x.h", b"/abs/a.c", b"src/./sub/../a.c"]
+PATHS = [b"a.c", b"b.c", b"x.h", b"src/a.c", b"src/sub/b.c", b"src/../a.c", b"./b.c", b"inc/x.h", b"/abs/a.c", b"src/./sub/../a.c",
+         # near misses: a suppression's file name is a character suffix/prefix of these, but not at a component boundary
+         b"ba.c", b"xa.c", b"src/bb.c", b"xsrc/a.c", b"lib/xsub/b.c", b"a.cc", b"src/a.c.bak", b"/x/abs/a.c", b"ax.h", b"srcx/a.c"]
 # suppression file names: the above (local) and wildcard patterns (global)
 FILE_PATTERNS = [b"", b"a.c", b"b.c", b"x.h", b"src/a.c", b"sub/b.c", b"src/sub/b.c", b"src/../a.c", b"./b.c", b"/abs/a.c", b"src/",
                  b"*.c", b"src/*", b"*/a.c", b"**/b.c", b"src/**", b"?.c", b"a.*", b"*", b"inc/*.h", b"src/*/b.c", b"s?c/a.c", b"**.h"]
